@@ -37,7 +37,7 @@ fn text_piece() -> BoxedStrategy<String> {
         2 => select(vec!["・", "・・・", "・・・・", "<br>", "<br><br>", "<BR><BR><br>"]).prop_map(|s| s.to_string()),
         5 => select(vec!["(", "（", "「", "【", "[", ")", "）", "」", "】", "]", "”", "“"]).prop_map(|s| s.to_string()),
         3 => select(vec![",", "、", "，"]).prop_map(|s| s.to_string()),
-        4 => select(vec!["a", "B", "1", "２", "一", "十", "3.14", "A."]).prop_map(|s| s.to_string()),
+        4 => select(vec!["a", "B", "1", "２", "一", "十", "3.14", "A.", "Y", "w", "Y!", "a!"]).prop_map(|s| s.to_string()),
         4 => select(vec!["と", "っ", "です", "や", "の"]).prop_map(|s| s.to_string()),
         10 => select(vec!["あ", "い", "漢", "字", "な", "娘", "モ", "ー", "é", "𠮷"]).prop_map(|s| s.to_string()),
         2 => select(vec![" ", "　", "\n", "\t"]).prop_map(|s| s.to_string()),
@@ -49,6 +49,7 @@ fn word() -> BoxedStrategy<String> {
     prop_oneof![
         4 => select(vec!["。", "？", "!", ".", "、"]).prop_map(|s| s.to_string()),
         4 => select(vec!["な。な", "娘。", "モー娘。", "。な", "あ。", "い！い", "a.b", "字？", "）。"]).prop_map(|s| s.to_string()),
+        3 => select(vec!["Y!", "a!", "!?", "w?", "a.", "é!", "1.", "B?!"]).prop_map(|s| s.to_string()),
         6 => vec(select(vec!["あ", "い", "漢", "字", "な", "娘", "a", "1"]), 1..=3).prop_map(|v| v.concat()),
     ]
     .boxed()
